@@ -344,6 +344,27 @@ def switched_rules(chk):
     final = [e for e in tk if "red:argmax" in e.args[1].tags]
     chk.ob("R-SW-SEL", c + "{final map}", "result = np.take(peak_indices, chosen positions)", len(final) == 1 and "where-index" in final[0].args[0].tags and
            final[0].args[0].dtype == "int", derived="%d take(s) of chosen positions" % len(final), loc=final[0].loc if final else fi.loc(), inconclusive=not final)
+    # strictly ascending for EVERY series, constant ones included: the peak finder lists index 0 and index len(cleaned) - 1 -- the same index when
+    # the plateau-compressed series has one sample (a constant series; its two entries are both candidates of the one zero-valued "excursion" of an
+    # all-zero series) -- so either those two end entries are provably distinct for every length >= 1, or the result passes through a step that
+    # removes duplicates
+    from ..values import eval_linexpr as _ev_ix, linexpr_from_repr as _lfr
+    _det = analyse(chk, "eqsig.fns.peaks_and_crossings.determine_indices_of_peaks_for_cleaned_array", lambda I, st, fi: dict(values=rec_array("values")))
+    _pr = _det.ret.parts if _det.ret is not None else None
+    if _pr is not None and len(_pr) == 3 and _pr[0] == ("const", 0) and _pr[2][0] == "sym":
+        try:
+            _last = _lfr(_pr[2][1])
+            _coincide = [n_ for n_ in range(1, 40) if _ev_ix(_last, {"n": n_}) == 0]          # lengths at which last entry == first entry (0)
+            _unknown = False
+        except Exception:
+            _coincide, _unknown = [], True
+        dedup = [e for e in r.events("lib-call", SW) if e.name == "numpy.unique"]
+        chk.ob("R-SW-SEL", c + "{no duplicates}", "the reported indices are strictly ascending for every series: the peak finder's first and last entries are "
+               "distinct for every length, or duplicates are removed from the result", bool(dedup) or (not _coincide and not _unknown),
+               derived=("np.unique on the result" if dedup else
+                        ("first entry 0 and last entry %s coincide when the plateau-compressed series has %s sample(s) (a constant series); no duplicate removal"
+                         % (_pr[2][1], _coincide[:2]) if _coincide else "end entries distinct for every length")),
+               loc=fi.loc(), inconclusive=(not dedup and _unknown))
     # whatever the spelling: the reported indices are elements of the peak-index array, so that array is read element-wise somewhere
     # (np.take, integer / mask indexing, or a scalar subscript).  Never reading it means positions are reported instead of indices.
     if len(pk_rets) == 1 and pk_rets[0][0].origin:
